@@ -15,6 +15,7 @@ import (
 	"os"
 	"path/filepath"
 	"runtime"
+	"strconv"
 	"strings"
 	"sync"
 	"sync/atomic"
@@ -219,6 +220,34 @@ func c12SignalReady(max time.Duration) bool {
 	}
 }
 
+// c12SockQueues reads /proc/net/tcp: (local port, remote port) -> (tx_queue, rx_queue) of every IPv4 loopback socket.
+func c12SockQueues() (map[[2]int][2]int, bool) {
+	b, err := os.ReadFile("/proc/net/tcp")
+	if err != nil {
+		return nil, false
+	}
+	out := map[[2]int][2]int{}
+	for _, ln := range strings.Split(string(b), "\n")[1:] {
+		f := strings.Fields(ln)
+		if len(f) < 5 {
+			continue
+		}
+		la, ra, qs := strings.Split(f[1], ":"), strings.Split(f[2], ":"), strings.Split(f[4], ":")
+		if len(la) != 2 || len(ra) != 2 || len(qs) != 2 || la[0] != "0100007F" || ra[0] != "0100007F" {
+			continue
+		}
+		lp, e1 := strconv.ParseInt(la[1], 16, 32)
+		rp, e2 := strconv.ParseInt(ra[1], 16, 32)
+		tx, e3 := strconv.ParseInt(qs[0], 16, 64)
+		rx, e4 := strconv.ParseInt(qs[1], 16, 64)
+		if e1 != nil || e2 != nil || e3 != nil || e4 != nil {
+			continue
+		}
+		out[[2]int{int(lp), int(rp)}] = [2]int{int(tx), int(rx)}
+	}
+	return out, len(out) > 0
+}
+
 func c12ChildMain(a Args) {
 	var scn c12Scn
 	b, err := os.ReadFile(a.Replay)
@@ -399,22 +428,33 @@ threads=1
 		}
 	}
 	if scn.Phase == "read" {
-		// the server has read request r of connection i once it was answered or is counted in numInvoke;
-		// responses are sampled first and the condition must hold on three consecutive samples (a response is written
-		// just before its numInvoke decrement)
-		confirmed := make([]bool, len(scn.Conns))
+		// The server has read everything a client wrote once the client's socket has nothing unacknowledged (tx_queue = 0)
+		// and the server's socket has nothing unread (rx_queue = 0), on three consecutive samples (/proc/net/tcp): the
+		// bytes are then in the receive loop, which dispatches every complete request it holds. This does not rely on
+		// the server's own numInvoke counter. (Fallback where /proc/net/tcp cannot be read: numInvoke + responses.)
 		stable := 0
 		dl := time.Now().Add(10 * time.Second)
 		for stable < 3 {
 			okAll := true
-			rs := make([]int32, len(resp))
-			for i := range resp {
-				rs[i] = atomic.LoadInt32(&resp[i])
-			}
-			sn, ok := snapshot()
-			for i, cs := range scn.Conns {
-				if !ok || int(sn.Conns[keys[i]])+int(rs[i]) < len(cs.Pre) {
-					okAll = false
+			if q, ok := c12SockQueues(); ok {
+				for i := range scn.Conns {
+					cp := conns[i].LocalAddr().(*net.TCPAddr).Port
+					cl, ok1 := q[[2]int{cp, port}]
+					sv, ok2 := q[[2]int{port, cp}]
+					if !ok1 || !ok2 || cl[0] != 0 || sv[1] != 0 {
+						okAll = false
+					}
+				}
+			} else {
+				rs := make([]int32, len(resp))
+				for i := range resp {
+					rs[i] = atomic.LoadInt32(&resp[i])
+				}
+				sn, ok := snapshot()
+				for i, cs := range scn.Conns {
+					if !ok || int(sn.Conns[keys[i]])+int(rs[i]) < len(cs.Pre) {
+						okAll = false
+					}
 				}
 			}
 			if okAll {
@@ -429,7 +469,6 @@ threads=1
 		}
 		for i, cs := range scn.Conns {
 			if len(cs.Pre) > 0 {
-				confirmed[i] = true
 				log.add("readall", i, len(cs.Pre))
 			}
 		}
